@@ -443,7 +443,7 @@ pub fn budget(prop: &str) -> Budget {
         "C14" => Budget { quick: 80_000, thorough: 1_500_000 },
         "C15" => Budget { quick: 60_000, thorough: 1_000_000 },
         "C16" => Budget { quick: 60_000, thorough: 1_000_000 },
-        "C17" => Budget { quick: 80_000, thorough: 1_500_000 },
+        "C17" => Budget { quick: 250_000, thorough: 2_500_000 },
         "C18" => Budget { quick: 100_000, thorough: 2_000_000 },
         _ => Budget { quick: 100_000, thorough: 1_000_000 },
     }
